@@ -419,6 +419,13 @@ func runC10(t *testing.T, seed uint64, m *Mask) *Report {
 				addProbe(other, name) // the same name in the other namespace
 			}
 			// near misses
+			// names longer than the raw protocol's one-byte length field can express, with a registered name as
+			// their prefix: padded with junk, and padded so that the 256 bytes after the prefix read as (empty status,
+			// metadata of matching length) to a receiver that took only len%256 bytes as the name
+			if kind == "call" && proto == "raw" && e.Gen.Chance(0.15) {
+				addProbe(kind, name+strings.Repeat("x", 256))
+				addProbe(kind, name+"\x00\x00\x01\x04x="+strings.Repeat("a", 250))
+			}
 			for _, v := range []string{name + "x", strings.ToUpper(name), strings.ToLower(name), strings.TrimPrefix(name, "/"), name + "/", strings.Replace(name, "/", ".", 1), strings.Replace(name, "_", "/", 1), path.Dir(name)} {
 				if v != "" && v != name && e.Gen.Chance(0.4) {
 					if kind == "call" || proto != "http" {
@@ -477,6 +484,13 @@ func runC10(t *testing.T, seed uint64, m *Mask) *Report {
 		for _, p := range probes {
 			info := fmt.Sprintf("proto=%s mapper=%s %s %q want=%s", proto, opt.Mapper, p.kind, p.name, p.want)
 			got := ran[p.op.Tag]
+			if len(p.name) > 255 && proto == "raw" {
+				// cannot be expressed on this wire: whatever the caller is told, no handler may run and it is not OK
+				if len(got) > 0 || p.op.OK {
+					e.Fail("C10/unregistered-name-ran-a-handler", "%s (a %d-byte name): handlers that ran %v, caller ok=%v", info[:80], len(p.name), got, p.op.OK)
+				}
+				continue
+			}
 			switch p.want {
 			case "404":
 				if len(got) > 0 {
